@@ -317,8 +317,23 @@ class LinearPolynomial(BaseDeferred):
         return LinearPolynomial[int]({key: -value for key, value in self.coeffs.items()}, -self.constant_term)
 
     def _wait(self):
+        # Every pass replaces each unknown by what it currently stands for.
+        # What it stands for may mention further unknowns that stand for
+        # something in turn (a symbol for a label of an included file, whose
+        # base stands for an address of the including file), and only when all
+        # of them are spelled out do the occurrences of the link base cancel.
+        for _ in range(MAX_WAIT_STEPS):
+            if not self._substitute_unknowns():
+                break
+        else:
+            raise DeferredCycle()
+
+        return sum(key.wait() * value for key, value in self.coeffs.items()) + self.constant_term
+
+    def _substitute_unknowns(self):
         new_coeffs = []
         new_constant_term = self.constant_term
+        changed = False
 
         for variable, value in self.coeffs.items():
             key = variable
@@ -337,6 +352,7 @@ class LinearPolynomial(BaseDeferred):
                     raise DeferredCycle()
                 new_coeffs += [(key1, value1 * value) for key1, value1 in key.coeffs.items()]
                 new_constant_term += key.constant_term * value
+                changed = True
             elif isinstance(key, BaseDeferred):
                 # A promise that is settled with a not yet known value stays
                 # the variable (see Promise.get_current_best_estimate), unless
@@ -345,14 +361,15 @@ class LinearPolynomial(BaseDeferred):
                 if isinstance(variable, Promise) and not isinstance(key, Promise):
                     key = variable
                 new_coeffs.append((key, value))
+                changed = changed or key is not variable
             else:
                 new_constant_term += key * value
+                changed = True
 
         new_value = LinearPolynomial[int](new_coeffs, new_constant_term)
         self.coeffs = new_value.coeffs
         self.constant_term = new_value.constant_term
-
-        return sum(key.wait() * value for key, value in self.coeffs.items()) + self.constant_term
+        return changed and bool(self.coeffs)
 
     def get_current_best_estimate(self):
         if self.coeffs:
